@@ -12,6 +12,7 @@
 //	{"ev":"Deliver","k":outbox entry (1-based),"to":node}     exchange message k reaches node `to`
 //	{"ev":"ByzSign","b":byz node,"to":node,"batch":[{"v","c","claim"}]}   partials made with share b claiming share `claim`
 //	{"ev":"Crash","i":node}
+//	{"ev":"Consensus",...}                                     real qbft.Run among the live honest nodes, see consensus()
 //
 // Steps that address a crashed node or an outbox entry that does not exist (yet) are skipped (message loss).
 package c01
@@ -21,6 +22,7 @@ import (
 	"crypto/sha256"
 	"errors"
 	"fmt"
+	"math/rand"
 	"os"
 	"sort"
 	"strconv"
@@ -53,6 +55,7 @@ import (
 	"github.com/obolnetwork/charon/testutil/beaconmock"
 
 	"verifharness/drv"
+	"verifharness/drv/qbftdrv"
 )
 
 const (
@@ -458,6 +461,137 @@ func (w *world) receive(to *node, raw []byte) (verr, serr error) {
 	return nil, serr
 }
 
+// decide hands candidate c to the node's DutyDB through the function Wire subscribed on the consensus component.
+func (w *world) decide(nd *node, c, by string) {
+	var err error
+	for _, sub := range nd.cons.subs {
+		if e := sub(w.ctx, w.duty, w.unsigned(c)); e != nil {
+			err = e
+		}
+	}
+	if err == nil && len(nd.cons.subs) > 0 {
+		nd.served = true
+	}
+	w.log(drv.Step{"ev": "Decide", "i": nd.idx, "c": c, "by": by, "err": err != nil, "msg": errStr(err), "subs": len(nd.cons.subs)})
+}
+
+// consensus runs one instance of the REAL qbft.Run (harness/drv/qbftdrv) among the honest live nodes: values are candidate
+// indices (1 = A, 2 = B), Byzantine members stay silent, honest messages are delivered in a seeded random order with
+// loss, round timers fire when nothing is in flight.  Every decision is handed to that node's DutyDB at once
+// (Decide event with by = "qbft"); the consensus messages themselves are not logged (C02/C03 validate those).
+//
+//	{"ev":"Consensus","inst":k,"inputs":["A","B","",..] (per node; "" = no proposal),"seed":s,"ploss":percent,"steps":K,
+//	 "part":[nodes of one side of a network partition],"heal":step at which the partition heals}
+func (w *world) consensus(st drv.Step) {
+	rng := rand.New(rand.NewSource(int64(drv.Num(st["seed"]))))
+	var byz []int64
+	for b := range w.byz {
+		byz = append(byz, int64(b-1))
+	}
+	c := qbftdrv.New(w.n, int64(drv.Num(st["inst"])), byz, nil)
+	defer c.Stop()
+	var members []int64
+	for i := 1; i <= w.n; i++ {
+		if nd := w.nodes[i]; nd != nil && !nd.dead {
+			members = append(members, int64(i-1))
+		}
+	}
+	type item struct {
+		m  qbftdrv.M
+		to int64
+	}
+	var pend, held []item
+	decided := map[int64]bool{}
+	gone := map[int64]bool{}
+	// optional partition: until step `heal` messages between the two groups are held back (not lost)
+	group := map[int64]int{}
+	if part, ok := st["part"].([]any); ok {
+		for _, x := range part {
+			group[int64(drv.Num(x)-1)] = 1
+		}
+	}
+	heal := drv.Num(st["heal"])
+	step := 0
+	absorb := func(p int64, eff qbftdrv.Effects) {
+		if eff.Dead {
+			gone[p] = true
+		}
+		for _, b := range eff.Bcasts {
+			for _, q := range members {
+				if step < heal && group[b.Src] != group[q] {
+					held = append(held, item{b, q})
+				} else {
+					pend = append(pend, item{b, q})
+				}
+			}
+		}
+		if eff.NDec > 0 && !decided[p] {
+			decided[p] = true
+			cand, ok := map[int64]string{1: "A", 2: "B"}[eff.DVal]
+			if !ok {
+				cand = "?" + strconv.FormatInt(eff.DVal, 10)
+			}
+			nd := w.nodes[int(p)+1]
+			nd.out, nd.emit = nil, nil
+			w.decide(nd, cand, "qbft")
+		}
+	}
+	for _, p := range members {
+		absorb(p, c.Start(p))
+	}
+	inputs, _ := st["inputs"].([]any)
+	order := rng.Perm(len(members))
+	for _, k := range order {
+		p := members[k]
+		if int(p) < len(inputs) {
+			if v, ok := map[string]int64{"A": 1, "B": 2}[drv.Str(inputs[p])]; ok && !gone[p] {
+				absorb(p, c.Input(p, v))
+			}
+		}
+	}
+	ploss := float64(drv.Num(st["ploss"])) / 100
+	for ; step < drv.Num(st["steps"]); step++ {
+		if step == heal {
+			pend = append(pend, held...)
+			held = nil
+		}
+		var undecided []int64
+		for _, p := range members {
+			if !decided[p] && !gone[p] {
+				undecided = append(undecided, p)
+			}
+		}
+		if len(undecided) == 0 {
+			break
+		}
+		if len(pend) == 0 || rng.Float64() < 0.02 {
+			fired := false
+			for _, k := range rng.Perm(len(undecided)) {
+				if eff := c.Timeout(undecided[k]); !eff.Ignored {
+					absorb(undecided[k], eff)
+					fired = true
+					break
+				}
+			}
+			if !fired && len(pend) == 0 {
+				if len(held) == 0 || step >= heal {
+					break
+				}
+				step = heal - 1 // nothing can move inside the partition any more: heal it
+			}
+			continue
+		}
+		k := rng.Intn(len(pend))
+		it := pend[k]
+		pend[k] = pend[len(pend)-1]
+		pend = pend[:len(pend)-1]
+		if gone[it.to] || rng.Float64() < ploss {
+			continue
+		}
+		absorb(it.to, c.Deliver(it.to, it.m))
+	}
+}
+
 func (w *world) step(st drv.Step) {
 	live := func(key string) *node {
 		nd := w.nodes[drv.Num(st[key])]
@@ -474,17 +608,9 @@ func (w *world) step(st drv.Step) {
 		if nd == nil {
 			return
 		}
-		c := drv.Str(st["c"])
-		var err error
-		for _, sub := range nd.cons.subs {
-			if e := sub(w.ctx, w.duty, w.unsigned(c)); e != nil {
-				err = e
-			}
-		}
-		if err == nil && len(nd.cons.subs) > 0 {
-			nd.served = true
-		}
-		w.log(drv.Step{"ev": "Decide", "i": nd.idx, "c": c, "err": err != nil, "msg": errStr(err), "subs": len(nd.cons.subs)})
+		w.decide(nd, drv.Str(st["c"]), "driver")
+	case "Consensus":
+		w.consensus(st)
 	case "VCSign":
 		nd := live("i")
 		if nd == nil {
